@@ -19,7 +19,8 @@
      is a function of the (immutable) context object, so a cache hit returns what a fresh
      conversion would return;
    * locations (every object built by the harness is located at (0,0));
-   * the flag set of a font descriptor (never read by the DOM builder). *)
+   * the flag set and the font name of a font descriptor (never read by the DOM builder or by
+     FontDictionary::is_embedded). *)
 From PV Require Export Base.PdfObj.
 
 Definition oid := (N * N)%type.
@@ -136,9 +137,24 @@ Inductive fenc := EncMacRoman | EncMacExpert | EncWinAnsi | EncUnknown (s : byte
 Record fontdict := mkfd {
   fd_subtype : bytes;       (* FontType is an injective image of the /Subtype name *)
   fd_basefont : bytes;
-  fd_descr : bool;          (* Some descriptor attached *)
+  fd_descr : option bool;   (* the descriptor, if attached, as FontDescriptor::is_embedded():
+                               one of /FontFile, /FontFile2, /FontFile3 is a reference *)
   fd_enc : option fenc }.
 Definition resources := list (bytes * fontdict).   (* BTreeMap<DictKey, Rc<FontDictionary>> *)
+
+(* STANDARD_FONTS *)
+Definition standard_fonts : list bytes :=
+  [B "Times-Roman"; B "Times-Bold"; B "Times-Italic"; B "Times-BoldItalic";
+   B "Helvetica"; B "Helvetica-Bold"; B "Helvetica-Oblique"; B "Helvetica-BoldOblique";
+   B "Courier"; B "Courier-Bold"; B "Courier-Oblique"; B "Courier-BoldOblique";
+   B "Symbol"; B "ZapfDingbats"].
+(* FontDictionary::is_base_font: subtype is FontType::Type1 (the /Subtype name is exactly "Type1") and the
+   base font, read as UTF-8, equals one of the 14 names (all ASCII, so equality of the bytes) *)
+Definition fd_is_base_font (fd : fontdict) : bool :=
+  bytes_eqb (fd_subtype fd) (B "Type1") && existsb (bytes_eqb (fd_basefont fd)) standard_fonts.
+(* FontDictionary::is_embedded as FeaturePresence: Some true = True, Some false = False, None = Unknown *)
+Definition fd_is_embedded (fd : fontdict) : option bool :=
+  if fd_is_base_font fd then Some true else fd_descr fd.
 
 Inductive pagekid :=
 | PNode (parent : oid) (res : option resources) (count : N) (kids : list oid)
@@ -261,13 +277,18 @@ Definition to_page_contents (c : octx) (o : obj) : ores (list obj) :=
   end.
 
 (* ---------- fonts ---------- *)
-Definition to_font_descriptor (d : dict) : dres unit :=
+(* the result is FontDescriptor::is_embedded() of the descriptor built: fontfile/fontfile2/fontfile3
+   are `d.get_ref(..)`, i.e. present only when the value is a reference (never followed) *)
+Definition is_some {A} (x : option A) : bool := match x with Some _ => true | None => false end.
+Definition to_font_descriptor (d : dict) : dres bool :=
   match get_name d (B "FontName") with
   | None => DErr FontDescrConversionNoFontName
   | Some _ =>
     match get_usize d (B "Flags") with
     | None => DErr FontDescrConversionNoFlags
-    | Some _ => DOk tt
+    | Some _ =>
+      DOk (is_some (get_ref d (B "FontFile")) || is_some (get_ref d (B "FontFile2"))
+           || is_some (get_ref d (B "FontFile3")))%bool
     end
   end.
 
@@ -302,19 +323,19 @@ Definition to_font_dict (c : octx) (d : dict) : dres fontdict :=
     match get_name d (B "Subtype") with
     | None => DErr FontDictConversionNoSubtype
     | Some subtype =>
-      let descr : dres bool :=
+      let descr : dres (option bool) :=
         match dget d (B "FontDescriptor") with
         | Some (ODict dd) =>
-          match to_font_descriptor dd with DOk _ => DOk true | DErr e => DErr e | DFuel => DFuel end
+          match to_font_descriptor dd with DOk e => DOk (Some e) | DErr e => DErr e | DFuel => DFuel end
         | Some (ORef n g) =>
           match lookup c (n, g) with
           | None => DErr (FontDescrConversionUnknownObjectId (n, g))
           | Some (ODict dd) =>
-            match to_font_descriptor dd with DOk _ => DOk true | DErr e => DErr e | DFuel => DFuel end
+            match to_font_descriptor dd with DOk e => DOk (Some e) | DErr e => DErr e | DFuel => DFuel end
           | Some _ => DErr FontDescrConversionBadFontDescr
           end
         | Some _ => DErr FontDescrConversionBadFontDescr
-        | None => DOk false
+        | None => DOk None
         end in
       match descr with
       | DErr e => DErr e
@@ -609,7 +630,8 @@ Definition show_enc (e : option fenc) : bytes :=
 Definition show_res (r : resources) : bytes :=
   dash (intercalate (B ",") (List.map (fun kv =>
     show_hex (fst kv) ++ B ":" ++ show_hex (fd_basefont (snd kv)) ++ B ":" ++ show_enc (fd_enc (snd kv))
-    ++ B ":" ++ (if fd_descr (snd kv) then B "d" else B "-")) r)).
+    ++ B ":" ++ (if is_some (fd_descr (snd kv)) then B "d" else B "-")
+    ++ B ":e=" ++ (match fd_is_embedded (snd kv) with Some true => B "t" | Some false => B "f" | None => B "u" end)) r)).
 Definition show_optres (r : option resources) : bytes :=
   match r with None => B "~" | Some r => show_res r end.
 Definition show_contents (l : list obj) : bytes :=
